@@ -466,6 +466,40 @@ def run_shapes(cfgname):
         return res
 
 
+def run_smallworlds(cfgname):
+    """C17 on worlds of one and two archetypes (harness/rt/src/shapes.rs `ev`): world-level event
+    iterators vs archetype-level logs, size_hint at every position, clears (implementation only)."""
+    jf = os.path.join(tdir(), f"smallworlds-{cfgname}.json")
+    with Lock("smallworlds-" + cfgname):
+        if os.path.exists(jf):
+            return json.load(open(jf))
+        b = build_rt(cfgname)
+        res = {"key": "smallworlds-" + cfgname, "config": cfgname, "profile": "smallworlds", "mismatches": [], "invfails": [],
+               "summary": None, "oracle_hits": [], "harness_ok": b["ok"], "lines": []}
+        if not b["ok"]:
+            res["crashed"] = "harness does not build"
+        else:
+            p = subprocess.run([b["bin"], "smallworlds"], stdout=subprocess.PIPE, stderr=subprocess.PIPE, text=True, env=ENV, timeout=600)
+            got = p.stdout.splitlines()
+            res["lines"] = got
+            if p.returncode != 0:
+                res["crashed"] = f"smallworlds run exited with {p.returncode}: {p.stderr[-300:]}"
+            e1 = next((x for x in got if x.startswith("E1 ")), "")
+            cm = 1 if "c_made=1" in e1 else 0
+            exp = [f"E1 created_world_eq_arch=1 destroyed_world_eq_arch=1 n_created={2 + cm} n_destroyed=1 hints_exact=1 after_one_next=1 first_is_a=1 c_made={cm}",
+                   f"E2 after_clear created=0 destroyed=0 len={1 + cm}",
+                   "E3 created=2 destroyed=1 hints_exact=1 order_ok=1",
+                   "E4 created=1 destroyed=0 hints_exact=1 only_left=1"]
+            for e in exp:
+                tag = e.split()[0]
+                g = next((x for x in got if x.startswith(tag + " ")), None)
+                if g != e and not res.get("crashed"):
+                    res["oracle_hits"].append({"property": "C17", "seq": "smallworlds", "line": 0, "op": "rt smallworlds", "class": "smallworlds-" + tag, "no_shrink": True,
+                                               "what": f"event logs of a world with {'one archetype' if tag in ('E1', 'E2') else 'two archetypes (the first with an empty log)'}: expected `{e}`, observed `{g}`"})
+        json.dump(res, open(jf, "w"))
+        return res
+
+
 CORPUS = os.path.join(VERIF, "corpus")
 
 
@@ -770,6 +804,15 @@ def replay(path):
         return 0
     kind = data.get("kind")
     cls = data.get("class", "")
+    if kind == "boundary" and cls.startswith("smallworlds-"):
+        s = run_smallworlds(data["config"])
+        for l in s.get("lines", []):
+            print(l)
+        if [h for h in s.get("oracle_hits", []) if h["class"] == cls] or s.get("crashed"):
+            print(f"VIOLATION property={prop} replay={path}")
+            return 1
+        print("replay no longer fails")
+        return 0
     if kind == "boundary" and (cls.startswith("boundary-") or cls.startswith("cycles-") or cls.startswith("shapes-")):
         # re-run the deterministic boundary / 2^32-cycle / shapes program on the current tree
         s = run_boundary(data["config"]) if cls.startswith("boundary-") else (run_cycles(data["config"]) if cls.startswith("cycles-") else run_shapes(data["config"]))
@@ -924,6 +967,9 @@ def check_rt(prop, tier, seed):
     if prop == "C04":
         for c in QUICK_CONFIGS:
             streams.append(run_shapes(c))
+    if prop == "C17":
+        for c in ("dbg-e", "rel-ew3"):
+            streams.append(run_smallworlds(c))
     if prop == "C07":
         # every decision string over {Continue, ContinueDestroy, Break, BreakDestroy} up to length n
         nmax = 6 if tier == "thorough" else 4
